@@ -15,6 +15,8 @@ Variants ==
   \cup {[diagram |-> "sort", argv |-> <<"-m", f, "-sort">>, m |-> f, axis |-> "no"] : f \in {"obs", "fcst"}}
   \cup {[diagram |-> "hist", argv |-> <<"-m", f, "-hist", "-r", "-1,1,3,6", "-b", b>>, m |-> f, axis |-> b] : f \in {"obs", "fcst"}, b \in {"within=", "below", "=within"}}
   \cup {[diagram |-> "freq", argv |-> <<"-m", "freq", "-r", "-1,1,3,6", "-b", b>>, m |-> "", axis |-> b] : b \in {"above", "within=", "below="}}
+  \cup {[diagram |-> "cond", argv |-> <<"-m", "cond", "-r", "-1,1,3,6", "-b", b>>, m |-> "", axis |-> b] : b \in {"within=", "=within"}}
+  \cup {[diagram |-> "timeseries", argv |-> <<"-m", "timeseries">>, m |-> "", axis |-> "no"]}
   \cup {[diagram |-> "error", argv |-> <<"-m", "error">>, m |-> "", axis |-> "no"]}          \* (the error diagram takes no -x: one point per input)
   \cup {[diagram |-> "performance", argv |-> <<"-m", "performance", "-x", a, "-r", "2", "-simple">>, m |-> "", axis |-> a] : a \in {"leadtime", "location"}}
 ExprSeqJ(s) == s
@@ -31,6 +33,8 @@ SeriesOf(X, v) ==
     [] v.diagram = "sort" -> SortSeries(X, v.m)
     [] v.diagram = "hist" -> HistSeries(X, v.m, v.axis, ThsA)
     [] v.diagram = "freq" -> FreqSeries(X, v.axis, ThsA)
+    [] v.diagram = "cond" -> CondSeries(X, v.axis, ThsA)
+    [] v.diagram = "timeseries" -> TimeSeriesSeries(X)
     [] v.diagram = "error" -> ErrorSeries(X, v.axis)
     [] v.diagram = "performance" -> PerformanceSeries(X, v.axis, "above", R(2))
 Usable(x) == ~EmptySelection(DsOfSmall(x), x.opt)
@@ -44,6 +48,7 @@ Evaluate == phase = "case" /\ phase' = "emitted" /\ UNCHANGED <<gen, d>> /\ Emit
 Next == Evaluate
 Spec == Init /\ [][Next]_vars
 InvOneSeriesPerInput == LET X == Context(Ds, gen.opt) IN
-   OneSeriesPerInput(SeriesOf(X, d), IF d.diagram = "against" THEN 0 ELSE X.n, IF d.diagram \in {"obsfcst", "freq", "against"} THEN 1 ELSE 0)
+   OneSeriesPerInput(SeriesOf(X, d), IF d.diagram = "against" THEN 0 ELSE IF d.diagram = "cond" THEN 2 * X.n ELSE IF d.diagram = "timeseries" THEN X.n * Len(X.T) ELSE X.n,
+                     IF d.diagram \in {"obsfcst", "freq", "against"} THEN 1 ELSE 0)
 InvBins == LET X == Context(Ds, gen.opt) IN d.diagram = "hist" => \A i \in 1..X.n : EveryValueInOneBin(ValuesOf(X, i, d.m, "no", 1), d.axis, ThsA)
 =============================================================================
